@@ -59,3 +59,36 @@ fn neg_rdh_sanity() {
     // deliberately false: claims the CRU reserved bytes 40..48 are checked
     assert!(!(r.is_ok() && b[40] != 0), "[NEG] deliberately false");
 }
+
+use crate::config::check::{CheckModeArgs, CmdPathArg};
+use crate::config::custom_checks::custom_checks_cfg::verif_custom_cfg::mk_custom_checks;
+
+// @harness id=full_rdh_validator_from_config props=C10,C20,C01,C02,C04 kind=full tier=quick fns=RdhCruSanityValidator::new_from_config,RdhCruSanityValidator::with_custom_checks,RdhCruSanityValidator::with_specialization,RdhCruSanityValidator::specialize,RdhCruSanityValidator::new
+// Which sanity validator is built for which command line: the ITS system id is required exactly with an
+// ITS / ITS-stave target; a configured RDH version fixes the expected header id, otherwise the first header
+// seen does; an all-default custom-checks file changes nothing.
+#[kani::proof]
+#[kani::unwind(4)]
+fn full_rdh_validator_from_config() {
+    let all: bool = kani::any();
+    let tgt: u8 = kani::any();
+    kani::assume(tgt <= 2);
+    let target = match tgt { 0 => None, 1 => Some(System::ITS), _ => Some(System::ITS_Stave) };
+    let args = CheckModeArgs { target, path: CmdPathArg::default() };
+    let mut c = MockConfig::new();
+    c.check = Some(if all { CheckCommands::All(args) } else { CheckCommands::Sanity(args) });
+    let has_file: bool = kani::any();
+    let version: Option<u8> = kani::any();
+    let other_key: Option<u32> = kani::any();
+    if has_file {
+        c.custom_checks = Some(mk_custom_checks(other_key, None, false, None, version));
+    }
+    let cfg: &'static MockConfig = Box::leak(Box::new(c));
+    let v = RdhCruSanityValidator::<RdhCru>::new_from_config(cfg);
+    let its = tgt != 0;
+    assert!(v.rdh0_validator.system_id == if its { Some(0x20) } else { None }, "[C10][C01][C02] the ITS system id is required exactly when an ITS target is selected");
+    let expect_version = if has_file { version } else { None };
+    assert!(v.rdh0_validator.header_id == expect_version, "[C10][C20] a configured RDH version fixes the expected header id; otherwise the first header seen does");
+    assert!(v.rdh0_validator.header_size == 0x40 && v.rdh0_validator.priority_bit == 0 && v.rdh0_validator.reserved0 == 0, "[C10] the documented constants are expected in every configuration");
+    assert!(v.rdh0_validator.fee_id.layer_min_max == (0, 6) && v.rdh0_validator.fee_id.stave_number_min_max == (0, 47), "[C10] layer 0..=6 and stave 0..=47 in every configuration");
+}
